@@ -129,6 +129,10 @@ def gen_groups(run, n):
                 # this member of the group reaches the generator through the derive macro (options as attribute items)
                 c["delivery"] = "derive"
                 dims = dims + ["derive-delivery"]
+                if gi % 2 == 1:
+                    # ... preceded, in the same crate, by a derive of the same operation with the skip-none flag the other way round
+                    c["derive_warmup"] = {"skip_none": not opts.get("skip_none")}
+                    dims = dims + ["derive-after-twin"]
             # identical inputs: same schema text, same document, same vectors
             c["schema_text"], c["schema_ext"] = base["schema_text"], base["schema_ext"]
             c["vectors"] = vecs
